@@ -4,6 +4,7 @@ package main
 
 import (
 	"context"
+	"errors"
 	"fmt"
 	"net"
 	"strings"
@@ -111,6 +112,397 @@ func ttlsOf05(m *dns.Msg) string {
 	return strings.Join(p, ",")
 }
 
+// ---------- lazy refresh outcomes: a stale entry stays stale until a refresh brings a new answer
+
+// lazy05 is one scenario; every random choice is made up front (r.Rng is not shared with the goroutines).
+type lazy05 struct {
+	kind       string // what the chain behind the cache does with the refresh query: err | none | guard-matcher | guard-exec | answer
+	lazyTtl    int
+	rrs        []rr05 // the stale answer (no OPT), stored storedAgo before T, its TTL ran out expiredAgo before T
+	storedAgo  time.Duration
+	expiredAgo time.Duration
+	cacheIn    time.Duration // the entry leaves the store at T + cacheIn
+	newRcode   int
+	newTc      bool
+	newRrs     []rr05
+	held       bool // the first refresh is held for 150 ms while `extra` more queries arrive
+	extra      int
+}
+
+type hit05 struct {
+	off         time.Duration // nominal offset from T
+	s, e        time.Duration // measured bracket of the Exec call, from T
+	miss        bool          // not answered from the cache (the client's own query went to the upstream, or no answer)
+	isNew       bool
+	ttls        string
+	all5        bool
+	bgStarted   int // background runs of the chain that started between this hit and the next
+	storedAtOff time.Duration
+	peekOk      bool
+}
+
+type lazyRes05 struct {
+	idx              int
+	p                lazy05
+	hits             []hit05
+	extraBad         string
+	bgUpstream       int32
+	bgMaxInflight    int32
+	bgSawResp        int32
+	firstBgUpstream  time.Duration // from T; -1 = never
+	stall            time.Duration
+	restamped        string
+	newServedTtlsBad string
+}
+
+var lazyOffsets05 = []time.Duration{0, 500 * time.Millisecond, 1500 * time.Millisecond, 2500 * time.Millisecond}
+
+func (p lazy05) chainKind() string {
+	switch p.kind {
+	case "err", "none":
+		return "keep"
+	case "answer":
+		return "answer"
+	}
+	return "guard"
+}
+
+func (p lazy05) desc() map[string]any {
+	return map[string]any{"lazy_cache_ttl": p.lazyTtl, "stale_answer(section:isOpt:ttl)": rrsOp05(p.rrs), "stored_ago": p.storedAgo.String(), "ttl_ran_out_ago": p.expiredAgo.String(),
+		"leaves_store_in": p.cacheIn.String(), "rest_of_chain_on_refresh": p.kind, "upstream_answer": fmt.Sprintf("rcode=%d tc=%v %s", p.newRcode, p.newTc, rrsOp05(p.newRrs)),
+		"first_refresh_held": p.held, "queries_at": "T, T+0.5s, T+1.5s, T+2.5s"}
+}
+
+func (r *Run) genLazy05(i int) lazy05 {
+	kinds := []string{"err", "none", "guard-matcher", "guard-exec", "answer"}
+	p := lazy05{kind: kinds[i%len(kinds)]}
+	if i >= len(kinds) {
+		p.kind = kinds[r.Rng.Intn(len(kinds))]
+	}
+	p.lazyTtl = []int{2, 30, 3600, 86400}[r.Rng.Intn(4)]
+	for _, x := range r.rrs05(false) {
+		if !x.isOpt {
+			p.rrs = append(p.rrs, x)
+		}
+	}
+	p.expiredAgo = time.Duration(1+r.Rng.Intn(100))*time.Second + 500*time.Millisecond
+	p.storedAgo = p.expiredAgo + time.Duration(1+r.Rng.Intn(4000))*time.Second
+	p.cacheIn = []time.Duration{2 * time.Second, time.Hour}[r.Rng.Intn(2)]
+	nOld := 0
+	for _, x := range p.rrs {
+		if x.sec == 'a' {
+			nOld++
+		}
+	}
+	// the upstream's new answer: a different number of answer records than the stale one (that is how old and new
+	// data are told apart), TTLs 30.. so that none of its own boundaries falls into the 3 s of the scenario, or 0
+	p.newRcode = []int{0, 0, 0, 0, 3, 2, 5}[r.Rng.Intn(7)]
+	p.newTc = r.Rng.Intn(8) == 0
+	na := r.Rng.Intn(4)
+	for na == nOld {
+		na = r.Rng.Intn(4)
+	}
+	ttl := func() uint32 {
+		if r.Rng.Intn(10) == 0 {
+			return 0
+		}
+		return uint32(30 + r.Rng.Intn(4000))
+	}
+	for j := 0; j < na; j++ {
+		p.newRrs = append(p.newRrs, rr05{'a', false, ttl()})
+	}
+	for j := r.Rng.Intn(3); j > 0; j-- {
+		p.newRrs = append(p.newRrs, rr05{'n', false, ttl()})
+	}
+	if r.Rng.Intn(2) == 0 {
+		p.newRrs = append(p.newRrs, rr05{'e', true, 0x8000})
+	}
+	p.held = r.Rng.Intn(2) == 0
+	p.extra = 1 + r.Rng.Intn(3)
+	return p
+}
+
+func runLazy05(p lazy05) lazyRes05 {
+	res := lazyRes05{p: p, firstBgUpstream: -1}
+	meter := startStallMeter()
+	c := cache.NewCache(&cache.Args{Size: 1024, LazyCacheTTL: p.lazyTtl}, cache.Opts{})
+	defer c.Close()
+	var fg sync.Map // client contexts -> *bool (went to the upstream without a response)
+	var bgStarted, inflight int32
+	var firstBg int64 = -1
+	var T time.Time
+	gate := make(chan struct{})
+	if !p.held {
+		close(gate)
+	}
+	newMsg := func(q *dns.Msg) *dns.Msg {
+		m := msg05(p.newRcode, p.newTc, p.newRrs)
+		m.Id = q.Id
+		return m
+	}
+	probe := &sequence.ChainNode{E: sequence.ExecutableFunc(func(ctx context.Context, qCtx *query_context.Context) error {
+		if _, isFg := fg.Load(qCtx); !isFg {
+			atomic.AddInt32(&bgStarted, 1)
+			if qCtx.R() != nil {
+				atomic.AddInt32(&res.bgSawResp, 1)
+			}
+		}
+		return nil
+	})}
+	upstream := &sequence.ChainNode{E: sequence.ExecutableFunc(func(ctx context.Context, qCtx *query_context.Context) error {
+		if v, isFg := fg.Load(qCtx); isFg {
+			if qCtx.R() != nil { // answered from the cache
+				return nil
+			}
+			*(v.(*bool)) = true
+		} else {
+			atomic.AddInt32(&res.bgUpstream, 1)
+			atomic.CompareAndSwapInt64(&firstBg, -1, int64(time.Since(T)))
+			n := atomic.AddInt32(&inflight, 1)
+			for {
+				mx := atomic.LoadInt32(&res.bgMaxInflight)
+				if n <= mx || atomic.CompareAndSwapInt32(&res.bgMaxInflight, mx, n) {
+					break
+				}
+			}
+			<-gate
+			atomic.AddInt32(&inflight, -1)
+		}
+		switch p.kind {
+		case "err":
+			return errors.New("upstream is down") // leaves the context as it is
+		case "none":
+			return nil
+		case "guard-exec":
+			if qCtx.R() != nil {
+				return nil
+			}
+		}
+		qCtx.SetResponse(newMsg(qCtx.Q()))
+		return nil
+	})}
+	if p.kind == "guard-matcher" {
+		upstream.Matches = []sequence.Matcher{sequence.MatchFunc(func(ctx context.Context, qCtx *query_context.Context) (bool, error) {
+			return qCtx.R() == nil, nil
+		})}
+	}
+	next := sequence.NewChainWalker([]*sequence.ChainNode{probe, upstream}, nil)
+	q := new(dns.Msg)
+	q.SetQuestion("c05.example.", dns.TypeA)
+	key := cache.VerifGetMsgKey(q)
+	nOld := len(msg05(0, false, p.rrs).Answer)
+	ask := func(id uint16) (h hit05) {
+		qq := q.Copy()
+		qq.Id = id
+		qCtx := query_context.NewContext(qq)
+		went := new(bool)
+		fg.Store(qCtx, went)
+		h.s = time.Since(T)
+		err := c.Exec(context.Background(), qCtx, next)
+		h.e = time.Since(T)
+		resp := qCtx.R()
+		if err != nil || resp == nil || *went {
+			h.miss = true
+			return
+		}
+		h.isNew = len(resp.Answer) != nOld
+		h.ttls = ttlsOf05(resp)
+		h.all5 = true
+		for _, sec := range [][]dns.RR{resp.Answer, resp.Ns, resp.Extra} {
+			for _, rr := range sec {
+				if rr.Header().Rrtype != dns.TypeOPT && rr.Header().Ttl != 5 {
+					h.all5 = false
+				}
+			}
+		}
+		return
+	}
+	T = time.Now()
+	st0, me0, ce0 := T.Add(-p.storedAgo), T.Add(-p.expiredAgo), T.Add(p.cacheIn)
+	c.VerifInject(key, msg05(0, false, p.rrs), st0, me0, ce0)
+	for i, off := range lazyOffsets05 {
+		if d := off - time.Since(T); d > 0 {
+			time.Sleep(d)
+		}
+		before := atomic.LoadInt32(&bgStarted)
+		// what the store holds right before the query
+		sm, st, me, ce, ok := c.VerifPeek(key)
+		h := ask(uint16(i + 1))
+		h.off = off
+		h.peekOk = ok
+		if ok {
+			h.storedAtOff = st.Sub(T)
+			if res.restamped == "" && !st.Equal(st0) && len(sm.Answer) == nOld {
+				res.restamped = fmt.Sprintf("before the query at T+%v the store holds an entry stored at T+%v, message expiry T+%v, cache expiry T+%v", off, st.Sub(T).Round(time.Millisecond), me.Sub(T).Round(time.Millisecond), ce.Sub(T).Round(time.Millisecond))
+			}
+		}
+		if i == 0 && p.held && !h.miss {
+			for j := 0; j < 500 && atomic.LoadInt32(&bgStarted) == 0; j++ {
+				time.Sleep(time.Millisecond)
+			}
+			for j := 0; j < p.extra; j++ {
+				x := ask(uint16(100 + j))
+				if x.miss || x.isNew || !x.all5 {
+					res.extraBad = fmt.Sprintf("query %d while the first refresh was held: miss=%v new=%v ttls=%s", j+1, x.miss, x.isNew, x.ttls)
+				}
+			}
+			time.Sleep(150*time.Millisecond - (time.Since(T) - off))
+			close(gate)
+		}
+		res.hits = append(res.hits, h)
+		// background runs started by this query: counted up to just before the next one
+		wait := 300 * time.Millisecond
+		if i+1 < len(lazyOffsets05) {
+			wait = lazyOffsets05[i+1] - time.Since(T) - 20*time.Millisecond
+		}
+		if h.miss {
+			wait = 50 * time.Millisecond
+		}
+		if wait > 0 {
+			time.Sleep(wait)
+		}
+		res.hits[i].bgStarted = int(atomic.LoadInt32(&bgStarted) - before)
+		if h.miss {
+			break
+		}
+	}
+	res.firstBgUpstream = time.Duration(atomic.LoadInt64(&firstBg))
+	res.stall = meter.Stop()
+	return res
+}
+
+func admissible05(rcode int, tc bool, rrs []rr05) bool {
+	if tc {
+		return false
+	}
+	switch rcode {
+	case 2, 3:
+		return true
+	case 0:
+		n := 0
+		for _, x := range rrs {
+			if !x.isOpt {
+				n++
+				if x.ttl == 0 {
+					return false
+				}
+			}
+		}
+		return n > 0
+	}
+	return false
+}
+
+// evalLazy05 applies the property's own predicate to what the queries got, and (when the measured times leave no
+// doubt about whole seconds and boundaries) hands the scenario to the model.
+func (r *Run) evalLazy05(res lazyRes05) {
+	p := res.p
+	desc := func(extra map[string]any) map[string]any {
+		d := p.desc()
+		var obs []string
+		for _, h := range res.hits {
+			switch {
+			case h.miss:
+				obs = append(obs, fmt.Sprintf("T+%v: not from cache", h.off))
+			default:
+				w := "stale data"
+				if h.isNew {
+					w = "upstream's new answer"
+				}
+				obs = append(obs, fmt.Sprintf("T+%v: %s ttls=%s, background runs started=%d", h.off, w, h.ttls, h.bgStarted))
+			}
+		}
+		d["observed"] = strings.Join(obs, "; ")
+		if res.restamped != "" {
+			d["store"] = res.restamped
+		}
+		for k, v := range extra {
+			d[k] = v
+		}
+		return d
+	}
+	r.Eval(fmt.Sprintf("lazyseq:%s:%d:%s:%v:%s", p.kind, p.lazyTtl, rrsOp05(p.rrs), p.cacheIn, rrsOp05(p.newRrs)), true)
+	r.Count("lazy-refresh:" + p.kind)
+	r.Trace()
+	quiet := res.stall < 100*time.Millisecond
+	if !quiet {
+		r.Count("lazy-refresh:timing-dependent checks skipped (process stalled)")
+	}
+	newOk := p.chainKind() != "keep" && admissible05(p.newRcode, p.newTc, p.newRrs)
+	if res.extraBad != "" {
+		r.Fail("a query hitting a stale entry while its refresh is in flight was not answered with the stale answer and TTL 5", desc(map[string]any{"detail": res.extraBad}))
+	}
+	if res.bgMaxInflight > 1 {
+		r.Fail("more than one background refresh for one question was in flight", desc(map[string]any{"max_in_flight": res.bgMaxInflight}))
+	}
+	// first what holds whatever the timing: the stale data was stored long before T and its smallest TTL ran out before T
+	for _, h := range res.hits {
+		if h.miss || h.isNew {
+			continue
+		}
+		if !h.all5 {
+			r.Fail("an answer whose smallest TTL ran out long ago was served with a TTL other than the stale TTL 5 (a refresh that brought no new answer must not make it fresh)", desc(map[string]any{"query_at": "T+" + h.off.String()}))
+		}
+		if h.s > p.cacheIn {
+			r.Fail("a stale entry was served past its cache lifetime", desc(map[string]any{"query_at": "T+" + h.off.String()}))
+		}
+	}
+	var impl []string
+	lineOk := quiet
+	for i, h := range res.hits {
+		if h.s < h.off || h.e >= h.off+400*time.Millisecond {
+			lineOk = false
+		}
+		if h.miss {
+			impl = append(impl, "miss")
+			// the stale entry is certainly still in the store and nothing replaced it
+			if h.e < p.cacheIn && !newOk {
+				r.Fail("lazy caching is on but the stale entry (still within its cache lifetime) was not served", desc(nil))
+			}
+			continue
+		}
+		kind := "fresh"
+		if h.bgStarted > 0 {
+			kind = "stale"
+		}
+		if h.isNew {
+			impl = append(impl, "new "+kind+" "+h.ttls)
+			if !newOk {
+				r.Fail("an answer that must never be stored (or that no upstream ever gave for the refresh) was served from the cache", desc(nil))
+			}
+			continue
+		}
+		impl = append(impl, "old "+kind+" "+h.ttls)
+		if quiet && h.bgStarted == 0 {
+			r.Fail("a stale answer was served but no background refresh was started for it (the previous refresh had returned long before)", desc(map[string]any{"query_at": "T+" + h.off.String()}))
+		}
+		if quiet && i > 0 && newOk {
+			switch {
+			case res.firstBgUpstream < 0:
+				r.Fail("no background refresh ever reached the upstream (behind a skip-when-answered guard) although stale answers were served: the entry cannot be updated", desc(map[string]any{"query_at": "T+" + h.off.String()}))
+			case res.firstBgUpstream < 250*time.Millisecond:
+				r.Fail("the background refresh had long finished with a healthy upstream, yet the entry was not updated: the stale answer is still served", desc(map[string]any{"query_at": "T+" + h.off.String()}))
+			}
+		}
+	}
+	// store time of whatever was stored by the first refresh: within 0.4 s of T
+	for _, h := range res.hits {
+		if h.peekOk && h.storedAtOff >= 400*time.Millisecond {
+			lineOk = false
+		}
+	}
+	if !lineOk {
+		r.Count("lazy-refresh:not replayed on the model (measured times too far from the nominal ones)")
+		return
+	}
+	var hs []string
+	for _, h := range res.hits {
+		hs = append(hs, fmt.Sprint(int64(h.off)))
+	}
+	r.Line(fmt.Sprintf("lazyseq 1 %d 5 %d %d %d %s %s %d %s %s %s", p.lazyTtl, int64(p.storedAgo), -int64(p.expiredAgo), int64(p.cacheIn), rrsOp05(p.rrs), p.chainKind(),
+		p.newRcode, b01(p.newTc), rrsOp05(p.newRrs), strings.Join(hs, ",")), strings.Join(impl, "/"))
+}
+
 func runC05(r *Run) {
 	// ---------- a refresh that outlives the 5 s update timeout (an executable that does not watch its context) still
 	// holds the question: runs in the background while the rest of the harness works, collected at the end
@@ -168,6 +560,13 @@ func runC05(r *Run) {
 		c.Close()
 		stuckCh <- res
 	}()
+	// ---------- lazy refresh outcomes (run in the background as well; evaluated at the end)
+	nLazy := r.N(10, 40)
+	lazyCh := make(chan lazyRes05, nLazy)
+	for i := 0; i < nLazy; i++ {
+		p := r.genLazy05(i)
+		go func(i int) { x := runLazy05(p); x.idx = i; lazyCh <- x }(i)
+	}
 	// ---------- admission and lifetimes
 	nAdm := r.N(1500, 40000)
 	for i := 0; i < nAdm; i++ {
@@ -462,5 +861,13 @@ func runC05(r *Run) {
 			r.Fail("a query hitting a stale entry was not answered from the cache", map[string]any{"queries": 3, "answered": sr.answered, "scenario": "refresh outlives the update timeout"})
 		}
 	}
-	r.Finish("admission: rcodes {0,2,3 and others}, TC, lazy on/off, 0..3 records per section with TTLs from {0,1,2,...,2^32-1} incl. an OPT pseudo-record; serving: entries injected with stored/expiry times placed half a second from every boundary (elapsed k+0.5 s, expiries +-(j+0.5 s), in or out of the store), lazy on/off; bursts of 4..15 sequential or concurrent queries on a stale entry with the refresh held; one refresh held beyond the 5 s update timeout with further stale hits after it; one entry followed through real time; non-trivial = stored / served")
+	lazyRes := make([]lazyRes05, nLazy)
+	for i := 0; i < nLazy; i++ {
+		x := <-lazyCh
+		lazyRes[x.idx] = x
+	}
+	for _, x := range lazyRes {
+		r.evalLazy05(x)
+	}
+	r.Finish("admission: rcodes {0,2,3 and others}, TC, lazy on/off, 0..3 records per section with TTLs from {0,1,2,...,2^32-1} incl. an OPT pseudo-record; serving: entries injected with stored/expiry times placed half a second from every boundary (elapsed k+0.5 s, expiries +-(j+0.5 s), in or out of the store), lazy on/off; bursts of 4..15 sequential or concurrent queries on a stale entry with the refresh held; one refresh held beyond the 5 s update timeout with further stale hits after it; lazy refresh outcomes: a stale entry (random records, ages, leaving the store in 2 s or 1 h, lazy_cache_ttl 2..86400) queried at T, T+0.5 s, T+1.5 s, T+2.5 s while the rest of the chain fails / yields nothing / sits behind a skip-when-answered guard (matcher or in the executable) / answers (storable or never-storable answers), first refresh optionally held with more queries arriving - stale data must keep TTL 5, start a refresh, leave on time, and be replaced once a healthy upstream answered; each scenario also replayed on the model (lazyRun); one entry followed through real time; non-trivial = stored / served")
 }
